@@ -174,57 +174,66 @@ def apply_mutation(doc, m):
     return d
 
 
-def fam_mutations():
-    docs = [
-        ('PUT', '/allocations/' + CONS(5), '1.38', lambda ctx: {
-            'allocations': {U(1): {'resources': {'VCPU': ctx.int('a')}}},
-            'project_id': 'p', 'user_id': 'u', 'consumer_generation': None,
-            'consumer_type': 'INSTANCE', 'mappings': {'': [U(1)]}}),
-        ('POST', '/allocations', '1.36', lambda ctx: {CONS(5): {
+DOCS = [
+    ('PUT', '/allocations/' + CONS(5), '1.38', lambda ctx: {
+        'allocations': {U(1): {'resources': {'VCPU': ctx.int('a')}}},
+        'project_id': 'p', 'user_id': 'u', 'consumer_generation': None,
+        'consumer_type': 'INSTANCE', 'mappings': {'': [U(1)]}}),
+    ('POST', '/allocations', '1.36', lambda ctx: {CONS(5): {
+        'allocations': {U(1): {'resources': {'VCPU': ctx.int('a')}}},
+        'project_id': 'p', 'user_id': 'u',
+        'consumer_generation': None}}),
+    ('PUT', '/resource_providers/%s/inventories' % U(1), '1.36',
+     lambda ctx: {'resource_provider_generation': ctx.int('g'),
+                  'inventories': {'VCPU': {
+                      'total': ctx.int('t'), 'reserved': ctx.int('r'),
+                      'allocation_ratio': ctx.real('ra')}}}),
+    ('POST', '/reshaper', '1.36', lambda ctx: {
+        'inventories': {U(1): {
+            'resource_provider_generation': ctx.int('g'),
+            'inventories': {'VCPU': {'total': ctx.int('t')}}}},
+        'allocations': {CONS(2): {
             'allocations': {U(1): {'resources': {'VCPU': ctx.int('a')}}},
             'project_id': 'p', 'user_id': 'u',
-            'consumer_generation': None}}),
-        ('PUT', '/resource_providers/%s/inventories' % U(1), '1.36',
-         lambda ctx: {'resource_provider_generation': ctx.int('g'),
-                      'inventories': {'VCPU': {
-                          'total': ctx.int('t'), 'reserved': ctx.int('r'),
-                          'allocation_ratio': ctx.real('ra')}}}),
-        ('POST', '/reshaper', '1.36', lambda ctx: {
-            'inventories': {U(1): {
-                'resource_provider_generation': ctx.int('g'),
-                'inventories': {'VCPU': {'total': ctx.int('t')}}}},
-            'allocations': {CONS(2): {
-                'allocations': {U(1): {'resources': {'VCPU': ctx.int('a')}}},
-                'project_id': 'p', 'user_id': 'u',
-                'consumer_generation': ctx.int('cg')}}}),
-        ('PUT', '/resource_providers/%s/traits' % U(1), '1.36',
-         lambda ctx: {'resource_provider_generation': ctx.int('g'),
-                      'traits': ['CUSTOM_T1']}),
-        ('PUT', '/resource_providers/%s/aggregates' % U(1), '1.36',
-         lambda ctx: {'resource_provider_generation': ctx.int('g'),
-                      'aggregates': [AGG(1)]}),
-        ('POST', '/resource_providers', '1.36',
-         lambda ctx: {'name': 'new', 'uuid': U(9),
-                      'parent_provider_uuid': U(1)}),
-        ('PUT', '/resource_providers/' + U(1), '1.37',
-         lambda ctx: {'name': 'p1x', 'parent_provider_uuid': None}),
-    ]
+            'consumer_generation': ctx.int('cg')}}}),
+    ('PUT', '/resource_providers/%s/traits' % U(1), '1.36',
+     lambda ctx: {'resource_provider_generation': ctx.int('g'),
+                  'traits': ['CUSTOM_T1']}),
+    ('PUT', '/resource_providers/%s/aggregates' % U(1), '1.36',
+     lambda ctx: {'resource_provider_generation': ctx.int('g'),
+                  'aggregates': [AGG(1)]}),
+    ('POST', '/resource_providers', '1.36',
+     lambda ctx: {'name': 'new', 'uuid': U(9),
+                  'parent_provider_uuid': U(1)}),
+    ('PUT', '/resource_providers/' + U(1), '1.37',
+     lambda ctx: {'name': 'p1x', 'parent_provider_uuid': None}),
+]
+
+
+
+def _doc_world(ctx):
+    w = World(ctx)
+    w.rc('VCPU')
+    w.trait('CUSTOM_T1')
+    w.agg(1)
+    w.project('p')
+    w.user('u')
+    w.consumer_type('INSTANCE')
+    w.provider(1, generation=ctx.int('gen_p1', 0))
+    w.inventory(1, 'VCPU', present=True)
+    b = ctx.bool('has_alloc')
+    w.allocation(2, 1, 'VCPU', present=b, used=ctx.int('used', 1))
+    w.consumer(2, present=b, generation=ctx.int('cgen2', 0))
+    return w
+
+
+def fam_mutations():
+    docs = DOCS
 
     def path(ctx):
         app.setup()
         method, url, ver, mk = docs[symex.choose(len(docs))]
-        with World(ctx) as w:
-            w.rc('VCPU')
-            w.trait('CUSTOM_T1')
-            w.agg(1)
-            w.project('p')
-            w.user('u')
-            w.consumer_type('INSTANCE')
-            w.provider(1, generation=ctx.int('gen_p1', 0))
-            w.inventory(1, 'VCPU', present=True)
-            b = ctx.bool('has_alloc')
-            w.allocation(2, 1, 'VCPU', present=b, used=ctx.int('used', 1))
-            w.consumer(2, present=b, generation=ctx.int('cgen2', 0))
+        with _doc_world(ctx) as w:
             doc = mk(ctx)
             ms = mutations(doc)
             m = ms[symex.choose(len(ms))]
@@ -242,6 +251,221 @@ def fam_mutations():
         documents=len(docs), mutation='delete key / null / string / list / '
         'object / boolean / -1 / unknown key, at every level; numeric '
         'leaves symbolic'))
+
+
+# ---- hostile strings in every string position of every document ------------
+
+HOSTILE = ['a\ud800', '\udfff', 'a\x00b', '', ' ', 'x' * 300, '\U0001F600',
+           '\u00e9', 'a\nb', '%s', '%(x)s', '{0}', 'p', 'CUSTOM_T1', U(1),
+           U(1).upper(), U(1).replace('-', ''), '{' + U(1) + '}',
+           'urn:uuid:' + U(1)]
+
+
+def string_sites(doc):
+    """paths of string leaves, and of dictionary keys, in doc"""
+    out = []
+
+    def walk(node, path):
+        if isinstance(node, dict):
+            for k in list(node):
+                out.append(('key', path + [k]))
+                walk(node[k], path + [k])
+        elif isinstance(node, list):
+            for i, v in enumerate(node):
+                walk(v, path + [i])
+        elif isinstance(node, str):
+            out.append(('val', path))
+    walk(doc, [])
+    return out
+
+
+def put_string(doc, site, s):
+    kind, path = site
+    d = copy.deepcopy(doc)
+    node = d
+    for k in path[:-1]:
+        node = node[k]
+    if kind == 'val':
+        node[path[-1]] = s
+    else:
+        node[s] = node.pop(path[-1])
+    return d
+
+
+def fam_strings():
+    def path(ctx):
+        app.setup()
+        method, url, ver, mk = DOCS[symex.choose(len(DOCS))]
+        with _doc_world(ctx) as w:
+            doc = mk(ctx)
+            sites = string_sites(doc)
+            site = sites[symex.choose(len(sites))]
+            hs = HOSTILE[symex.choose(len(HOSTILE))]
+            body = put_string(doc, site, hs)
+            pre = w.dump()
+            r = app.call(method, url, body, version=ver,
+                         roles='admin,service')
+            post = w.dump()
+            what = '%s %s %s %s := %a' % (method, url.split('/')[1], site[0],
+                                          '/'.join(map(str, site[1])),
+                                          hs[:20])
+            well_formed(ctx, r, what)
+            unchanged_if_malformed(ctx, r, pre, post, what)
+            return finish(ctx, str(r.status))
+    return Family('strings', path, bounds=dict(
+        documents=len(DOCS), values=len(HOSTILE),
+        sites='every string leaf and every dictionary key of every '
+        'document; numeric leaves symbolic'))
+
+
+# ---- raw request bodies ------------------------------------------------------
+
+RAW = [b'', b' ', b'null', b'true', b'0', b'"s"', b'[]', b'{}', b'\xff',
+       b'{"name": "\xff"}', b'\xef\xbb\xbf{}', b'[' * 5000,
+       b'{"a":' * 5000 + b'1' + b'}' * 5000, b'{} x', b'{"a":1,"a":2}',
+       b'NaN', b'{"name": 1e400}', b'-', b'{"name": "\\ud800"}',
+       b'{"\\ud800": 1}', b'\x00', b'{"name": "x"}\n\n', b'{"name": 01}',
+       b"{'name': 'x'}", b'{"name": "x",}', b'1' * 5000,
+       b'{"name": ' + b'9' * 5000 + b'}']
+CTYPES = ['application/json', 'application/json; charset=utf-8',
+          'application/json; charset=latin-1', 'text/plain', '', None,
+          'application/x-www-form-urlencoded', 'APPLICATION/JSON']
+
+
+def fam_raw_bodies():
+    targets = [(m, u, v) for m, u, v, mk in DOCS] + [
+        ('PUT', '/traits/CUSTOM_NEW', '1.36'),
+        ('PUT', '/resource_classes/CUSTOM_NEW', '1.36'),
+        ('POST', '/resource_classes', '1.36'),
+        ('DELETE', '/resource_providers/' + U(1), '1.36'),
+        ('GET', '/resource_providers', '1.36')]
+
+    def path(ctx):
+        app.setup()
+        method, url, ver = targets[symex.choose(len(targets))]
+        raw = RAW[symex.choose(len(RAW))]
+        ct = CTYPES[symex.choose(len(CTYPES))] \
+            if raw in (b'{}', b'', b'{"name": "x"}\n\n') else CTYPES[0]
+        with _doc_world(ctx) as w:
+            pre = w.dump()
+            r = app.call(method, url, raw_body=raw, content_type=ct,
+                         version=ver, roles='admin,service')
+            post = w.dump()
+            what = '%s %s raw %a (%s)' % (method, url.split('/')[1],
+                                          raw[:16], ct)
+            well_formed(ctx, r, what)
+            unchanged_if_malformed(ctx, r, pre, post, what)
+            return finish(ctx, str(r.status))
+    return Family('raw-bodies', path, bounds=dict(
+        targets=len(targets), bodies=len(RAW), content_types=len(CTYPES)))
+
+
+# ---- path items ---------------------------------------------------------------
+
+def fam_path_items():
+    items = ['%FF', '%00', 'x' * 300, U(1).upper(), U(1).replace('-', ''),
+             '..', '%2F', '%C3%A9', '%ED%A0%80', ' ', '%20', U(99), 'VCPU',
+             'CUSTOM_T1', 'CUSTOM_' + 'A' * 300, 'custom_x', '*', '%25s']
+    routes = ['/resource_providers/{}', '/resource_providers/{}/inventories',
+              '/resource_providers/{}/inventories/VCPU',
+              '/resource_providers/%s/inventories/{}' % U(1),
+              '/resource_providers/{}/usages',
+              '/resource_providers/{}/aggregates',
+              '/resource_providers/{}/traits',
+              '/resource_providers/{}/allocations', '/allocations/{}',
+              '/traits/{}', '/resource_classes/{}', '/{}', '/usages/{}']
+    bodies = {'/allocations/{}': {
+        'allocations': {U(1): {'resources': {'VCPU': 1}}},
+        'project_id': 'p', 'user_id': 'u', 'consumer_generation': None},
+        '/resource_providers/{}': {'name': 'renamed'}}
+
+    def path(ctx):
+        app.setup()
+        rt = routes[symex.choose(len(routes))]
+        it = items[symex.choose(len(items))]
+        method = ('GET', 'PUT', 'DELETE', 'POST')[symex.choose(4)]
+        body = bodies.get(rt) if method in ('PUT', 'POST') else None
+        if body is None and method in ('PUT', 'POST'):
+            body = {}
+        with _doc_world(ctx) as w:
+            pre = w.dump()
+            r = app.call(method, rt.format(it), body, version='1.36')
+            post = w.dump()
+            what = '%s %s with %s' % (method, rt, it[:12])
+            well_formed(ctx, r, what)
+            unchanged_if_malformed(ctx, r, pre, post, what)
+            return finish(ctx, str(r.status))
+    return Family('path-items', path, bounds=dict(
+        routes=len(routes), items=len(items), methods=4))
+
+
+# ---- repeated and conflicting query parameters -----------------------------------
+
+def fam_query_repeats():
+    """every query parameter given twice: valid then invalid, invalid then
+    valid, two different valid values"""
+    topo = c03.TOPOS['two'].but(sure_traits=[(1, 'CUSTOM_T1')],
+                                sure_aggs=[(1, 1)])
+    A = AGG(1)
+    cand = 'resources=VCPU:1&resources_A=VCPU:1&resources_B=DISK_GB:1' \
+        '&group_policy=none'
+    table = [
+        ('/allocation_candidates', cand, 'limit', '5', '2', 'abc'),
+        ('/allocation_candidates', cand.replace('&group_policy=none', ''),
+         'group_policy', 'none', 'isolate', 'bogus'),
+        ('/allocation_candidates', 'resources_A=VCPU:1', 'resources',
+         'VCPU:1', 'DISK_GB:1', 'VCPU:x'),
+        ('/allocation_candidates', cand, 'required', 'CUSTOM_T1',
+         '!CUSTOM_T1', '!!'),
+        ('/allocation_candidates', cand, 'member_of', A, 'in:' + A, 'x'),
+        ('/allocation_candidates', cand, 'in_tree', U(1), U(3), 'x'),
+        ('/allocation_candidates', cand, 'root_required', 'CUSTOM_T1',
+         '!CUSTOM_T1', 'x,,'),
+        ('/allocation_candidates', cand, 'same_subtree', '_A,_B', '_B,_A',
+         'x'),
+        ('/allocation_candidates', cand, 'resources_A', 'VCPU:1', 'VCPU:2',
+         'x'),
+        ('/allocation_candidates', cand, 'required_A', 'CUSTOM_T1',
+         '!CUSTOM_T1', ','),
+        ('/allocation_candidates', cand, 'member_of_A', A, '!' + A, 'x'),
+        ('/allocation_candidates', cand, 'in_tree_A', U(1), U(3), 'x'),
+        ('/resource_providers', '', 'name', 'p1', 'p2', ''),
+        ('/resource_providers', '', 'uuid', U(1), U(3), 'x'),
+        ('/resource_providers', '', 'in_tree', U(1), U(3), 'x'),
+        ('/resource_providers', '', 'member_of', A, 'in:' + A, 'x'),
+        ('/resource_providers', '', 'required', 'CUSTOM_T1', '!CUSTOM_T1',
+         '!!'),
+        ('/resource_providers', '', 'resources', 'VCPU:1', 'DISK_GB:1',
+         'VCPU:x'),
+        ('/traits', '', 'name', 'in:CUSTOM_T1', 'startswith:CUSTOM', 'x'),
+        ('/traits', '', 'associated', 'true', 'false', 'x'),
+        ('/usages', '', 'project_id', 'p', 'q', ''),
+        ('/usages', 'project_id=p', 'user_id', 'u', 'v', ''),
+        ('/usages', 'project_id=p', 'consumer_type', 'all', 'unknown',
+         'bogus type'),
+        ('/resource_classes', '', 'name', 'VCPU', 'x', ''),
+    ]
+
+    def path(ctx):
+        app.setup()
+        rt, base, prm, g1, g2, bad = table[symex.choose(len(table))]
+        a, b = [(g1, bad), (bad, g1), (g1, g2), (bad, bad)][symex.choose(4)]
+        import urllib.parse
+        qt = lambda v: urllib.parse.quote(v, safe=':,!_-')
+        q = '&'.join(x for x in (
+            '%s=%s' % (prm, qt(a)), base, '%s=%s' % (prm, qt(b))) if x)
+        with cands.CW(ctx, topo, usage=False) as cw:
+            pre = cw.w.dump()
+            r = app.call('GET', rt + '?' + q, version='1.39')
+            post = cw.w.dump()
+            what = '%s?%s=%r&...&%s=%r' % (rt, prm, a, prm, b)
+            well_formed(ctx, r, what)
+            obligation(ctx, 'read-changes-nothing',
+                       zbool(rel_diff(pre, post, CORE_TABLES)),
+                       '%s changed stored state' % what)
+            return finish(ctx, str(r.status))
+    return Family('query-repeats', path, bounds=dict(
+        parameters=len(table), orders=4))
 
 
 # ---- error format at a symbolic microversion ---------------------------------
@@ -420,7 +644,10 @@ def fam_query_strings():
             'VCPU', 'VCPU:', ':1', 'VCPU:1,', ',VCPU:1', 'VCPU:1:1', '!,',
             U(1), U(1) + ',', A, A + ',', 'in:' + A + ',', 'none', '_A',
             '_A,', ',_A', '_A,_B', '_A,,_B', '0', '-1', '1e3', '%00',
-            'CUSTOM_T1', 'CUSTOM_T1,', '!CUSTOM_T1,', 'in:CUSTOM_T1,!x']
+            'CUSTOM_T1', 'CUSTOM_T1,', '!CUSTOM_T1,', 'in:CUSTOM_T1,!x',
+            'RAW:%FF', 'RAW:%C0%80', 'RAW:%ED%A0%80', 'RAW:%F4%90%80%80',
+            'RAW:a%00b', 'RAW:%', 'RAW:%zz', 'RAW:a+b', 'RAW:a;b=c',
+            str(2 ** 63), str(2 ** 64), '-' + str(2 ** 63)]
     routes = {
         '/allocation_candidates': (
             'resources=VCPU:1&resources_A=VCPU:1&resources_B=DISK_GB:1'
@@ -444,8 +671,9 @@ def fam_query_strings():
         rt, base, prm = flat[symex.choose(len(flat))]
         v = vals[symex.choose(len(vals))]
         import urllib.parse
-        q = '&'.join(x for x in (base, '%s=%s' % (
-            prm, urllib.parse.quote(v, safe=':,!_-'))) if x)
+        qv = v[4:] if v.startswith('RAW:') else \
+            urllib.parse.quote(v, safe=':,!_-')
+        q = '&'.join(x for x in (base, '%s=%s' % (prm, qv)) if x)
         with cands.CW(ctx, topo, usage=False) as cw:
             pre = cw.w.dump()
             r = app.call('GET', rt + '?' + q, version='1.39')
@@ -523,7 +751,9 @@ def families(tier):
         shapes = [s for s in shapes if s.name in keep]
     fams = [fam_numbers(s) for s in shapes]
     fams += [fam_special_floats(), fam_mutations(), fam_error_format(),
-             fam_query_numbers(), fam_query_strings(), fam_version_bands()]
+             fam_query_numbers(), fam_query_strings(), fam_version_bands(),
+             fam_strings(), fam_raw_bodies(), fam_path_items(),
+             fam_query_repeats()]
     if os.environ.get('VERIF_NO_CROSSHAIR') != '1':
         fams.append(fam_crosshair(8 if tier == 'quick' else 60))
     return fams
